@@ -63,7 +63,7 @@ def harnesses(tier, seed):
     hs = []
     for ty in ("E", "M", "F", "MF", "FM", "FMF", "FL", "FLF"):
         for opname in ("map", "filter", "filter_map", "flat_map"):
-            hs.append(compose(ty, opname, 3 if tier == "quick" else 4))
+            hs.append(compose(ty, opname, (2 if ty == "FLF" else 3) if tier == "quick" else (3 if ty == "FLF" else 4)))
     if tier == "quick":
         hs += [scalar("count", "MF", 3, 2, 1), scalar("count", "FMF", 3, 2, 2), scalar("reduce_xor", "FLF", 3, 2, 1),
                scalar("find", "MF", 3, 2, 2), scalar("find", "FMF", 3, 2, 1), scalar("reduce_add", "FM", 3, 2, 2)]
